@@ -18,7 +18,7 @@ FIELD = {
     'nowait': 'nowait', 'skip_locked': 'skip_locked', 'attrs': 'attrs', 'update_columns': 'update_columns',
     'optimistic_columns': 'optimistic_columns', 'optimistic_ops': 'optimistic_ops', 'query._key': 'query_key',
     'vartypes': 'vartypes', 'fixed_param_values': 'fixed_param_values', 'offset': 'offset', 'distinct': 'distinct',
-    'aggr_func': 'aggr_func', 'inner_join_syntax': 'inner_join_syntax', 'sql_command': 'sql_command', 'code_key': 'code_key',
+    'aggr_func_name': 'aggr_func_name', 'aggr_func_distinct': 'aggr_func_distinct', 'sep': 'sep', 'inner_join_syntax': 'inner_join_syntax', 'sql_command': 'sql_command', 'code_key': 'code_key',
     'left_join': 'left_join', 'filters': 'filters', 'sql_key': 'sql_key', 'arguments_key': 'arguments_key', 'sql': 'sql',
     'original_sql': 'sql', 'paramstyle': 'paramstyle', 's': 'source_text', 'codeobject': 'codeobject_id',
     # components a repaired key may carry
@@ -28,6 +28,16 @@ FIELD = {
 
 class Unknown(Exception):
     pass
+
+
+# keyword components of the HashableDict keys: the value expression each is built from (an input passed through unchanged)
+KW_VALUES = {
+    'vartypes': ['HashableDict(query._translator.vartypes)', 'vartypes'],
+    'fixed_param_values': ['HashableDict(translator.fixed_param_values)'],
+    'limit': ['limit'], 'offset': ['offset'], 'distinct': ['query._distinct'], 'for_update': ['query._for_update'], 'nowait': ['query._nowait'],
+    'skip_locked': ['query._skip_locked'], 'inner_join_syntax': ['options.INNER_JOIN_SYNTAX'], 'attrs_to_prefetch': ['attrs_to_prefetch'],
+    'sql_command': ["'DELETE'"], 'code_key': ['code_key'], 'left_join': ['left_join'], 'filters': ['()'], 'arguments_key': ['arguments_key'],
+}
 
 
 def src(node):
@@ -56,7 +66,18 @@ def components(expr):
         return out
     if isinstance(expr, ast.Call) and isinstance(expr.func, ast.Name) and expr.func.id == 'HashableDict':
         out = [src(a) for a in expr.args]
-        out += [k.arg for k in expr.keywords]
+        for k in expr.keywords:
+            v = src(k.value)
+            if k.arg == 'aggr_func':
+                # the component is itself a tuple of inputs: each must be passed through UNCHANGED (a wrapped input, e.g. bool(x), loses values)
+                if not (isinstance(k.value, ast.Tuple) and all(isinstance(e, ast.Name) for e in k.value.elts)):
+                    raise Unknown('sql_key component aggr_func is built as %s: not a tuple of the plain inputs' % v)
+                out += [e.id for e in k.value.elts]
+                continue
+            allowed = KW_VALUES.get(k.arg)
+            if allowed is not None and v not in allowed:
+                raise Unknown('key component %s is built as %s (expected %s): the model does not cover a transformed input' % (k.arg, v, ' or '.join(allowed)))
+            out.append(k.arg)
         return out
     return [src(expr)]
 
@@ -184,6 +205,48 @@ def analyse(repo):
     m2m = find_func(core, 'Set.construct_sql_m2m')
     a = [src(x.value) for x in assigns(m2m, 'cache_key')]
     if a != ['-items_count', 'batch_size']: raise Unknown('Set.construct_sql_m2m: cache_key = %r' % a)
+    # id()-keyed caches: does get_codeobject_id keep the code object alive (module dict `codeobjects`)
+    utils = ast.parse(open(os.path.join(repo, 'pony', 'utils', 'utils.py')).read())
+    gid = find_func(utils, 'get_codeobject_id')
+    module_dicts = [src(n.targets[0]) for n in utils.body if isinstance(n, ast.Assign) and isinstance(n.value, ast.Dict)]
+    stores = [n for n in ast.walk(gid) if isinstance(n, ast.Assign) and isinstance(n.targets[0], ast.Subscript)
+              and src(n.targets[0].value) in module_dicts and src(n.value) == 'codeobject']
+    returns_id = any(isinstance(n, ast.Return) and (src(n.value) in ('id(codeobject)', 'codeobject_id')) for n in ast.walk(gid))
+    if not returns_id: raise Unknown('get_codeobject_id does not return id(codeobject)')
+    f['codeobjectsPinned'] = bool(stores)
+    # the code keys id(f_code) / id(func.__code__) are taken from objects that decompile() numbers (and pins) in the same call
+    mq = src(find_func(core, 'make_query')); pl = src(find_func(core, 'Query._process_lambda'))
+    f['codeKeyFromDecompiledObject'] = ('decompile(gen)' in mq and 'id(gen.gi_frame.f_code)' in mq and mq.index('decompile(gen)') < mq.index('id(gen.gi_frame.f_code)')
+                                        and 'id(func.__code__)' in pl and 'decompile(func)' in pl)
+    if not f['codeKeyFromDecompiledObject']: raise Unknown('make_query / _process_lambda: the code key is not taken from the decompiled (pinned) code object')
+    # pinned parameter values are recorded on the ROOT translator (the one the cache re-check and sql_key read)
+    sqlt = ast.parse(open(os.path.join(repo, 'pony', 'orm', 'sqltranslation.py')).read())
+    parents = {}
+    for n in ast.walk(sqlt):
+        for ch in ast.iter_child_nodes(n): parents[ch] = n
+    def enclosing_funcs(n):
+        out = []
+        while n in parents:
+            n = parents[n]
+            if isinstance(n, ast.FunctionDef): out.append(n)
+        return out
+    def resolve(name, funcs):
+        for fn in funcs:
+            a = assigns(fn, name)
+            if a: return a[-1].value
+        return None
+    sites = []
+    for n in ast.walk(sqlt):
+        if isinstance(n, ast.Assign) and isinstance(n.targets[0], ast.Subscript) and 'fixed_param_values' in src(n.targets[0].value):
+            funcs = enclosing_funcs(n)
+            tv = n.targets[0].value
+            if isinstance(tv, ast.Name): tv = resolve(tv.id, funcs)
+            recv = tv.value if isinstance(tv, ast.Attribute) and tv.attr == 'fixed_param_values' else None
+            if isinstance(recv, ast.Name): recv = resolve(recv.id, funcs)
+            sites.append((funcs[0].name if funcs else '?', src(recv) if recv is not None else '?'))
+    if not sites: raise Unknown('sqltranslation.py: no site records fixed_param_values')
+    f['pinSites'] = ['%s: %s' % s_ for s_ in sites]
+    f['pinsRecordedAtRoot'] = all(r.endswith('.root_translator') for _, r in sites)
     # create_extractors: is a hit re-validated against the classification of the called names in the new scope
     ce = find_func(asttr, 'create_extractors')
     ces = src(ce)
@@ -233,6 +296,10 @@ def render(f):
     lines.append('def dbInsertKeyFlat : Bool := %s' % b(f['dbInsertKeyFlat']))
     lines.append('/-- `create_extractors` re-validates a hit: classification of the called names in the new scope + the outer names -/')
     lines.append('def extractorsRecheck : Bool := %s' % b(f['extractorsRecheck']))
+    lines.append('/-- `get_codeobject_id` keeps every code object it numbers alive (module dict `codeobjects`): id() stays a key -/')
+    lines.append('def codeobjectsPinned : Bool := %s' % b(f['codeobjectsPinned']))
+    lines.append('/-- every site that bakes a parameter value into a translator records it in the ROOT translator\'s `fixed_param_values` -/')
+    lines.append('def pinsRecordedAtRoot : Bool := %s' % b(f['pinsRecordedAtRoot']))
     lines.append('/-- `Entity.flush` contains `query_results.clear()` -/')
     lines.append('def entityFlushClearsResults : Bool := %s' % b(f['entityFlushClearsResults']))
     lines.append('/-- `Query._aggregate` / `Query._actual_fetch` call `prepare_connection_for_query_execution()` before the lookup -/')
